@@ -6,9 +6,13 @@
    * every cursor primitive returns a value or an error on every well-formed cursor;
    * each of the 17 typed RDATA decoders, label iteration over a borrowed name and NameRef::eq return
      a value or an error value for every byte string, RDLENGTH and position: no arithmetic panic
-     (WKS `rd_len - 5`, TXT `rd_len -= len + 1`), no debug assertion, the loops terminate. *)
-From RsdnsModel Require Import Base Cursor Names Labels Header Tracker RData Reader Script.
-From RsdnsModel.Proofs Require Import CursorSafe LabelsTotal NoUB Defined.
+     (WKS `rd_len - 5`, TXT `rd_len -= len + 1`), no debug assertion, the loops terminate;
+   * the cursor-style reader used as documented (header first on a fresh reader; a data call gets the
+     marker of the preceding header call) is TOTAL on every message: every call returns a value or
+     an error value — no panic in the u16 section counters, no debug assertion, no exhausted loop,
+     no UB — and re-establishes the invariant the next call needs. *)
+From RsdnsModel Require Import Base GenReader GenTypes Cursor Names Labels Header Tracker RData Reader Script.
+From RsdnsModel.Proofs Require Import CursorSafe LabelsTotal NoUB Defined ReaderTotal.
 Open Scope N_scope.
 
 Theorem C01_name_walk_total : forall msg nk c, cwf msg c ->
@@ -56,3 +60,44 @@ Qed.
 Theorem C01_borrowed_names_total : forall msg c1 c2, cwf msg c1 -> cwf msg c2 ->
   defined (nameref_eq msg c1 c2) /\ defined (labels_drain msg c1).
 Proof. intros. split; [apply nameref_eq_defined|apply labels_drain_defined]; assumption. Qed.
+
+(* [RInv msg r]: cursor well-formed, every tracker counter read <= total <= 65535.
+   [rgood msg p]: the call returned a value or an error value and left a reader satisfying RInv.
+   [mk_ok r mk]: the marker's section still has an unread record in r (true for the marker a header
+   call just returned, see the second components below). *)
+Theorem C01_reader_start : forall msg r, reader_new msg = Ok r ->
+  RInv msg r /\ r_tr r = tr_default /\ rgood msg (rd_header msg r).
+Proof.
+  intros msg r H. unfold reader_new in H. destruct (msg_too_long (lenN msg)); [discriminate|]. inversion H; subst.
+  assert (Hi : RInv msg (mkReader (c_new msg) tr_default false)) by (split; [apply cwf_new|apply twf_default]).
+  split; [exact Hi|]. split; [reflexivity|]. apply rd_header_good; [apply cwf_new|reflexivity].
+Qed.
+
+Theorem C01_reader_total : forall msg r, RInv msg r ->
+  (forall single as_ref, rgood msg (rd_question msg single as_ref r)) /\
+  rgood msg (rd_skip_questions msg r) /\
+  (rgood msg (rd_marker msg r) /\
+   forall r' mk, rd_marker msg r = (r', Ok (OMarker mk)) -> mk_ok r' mk /\ pos (r_cur r') = rdata_pos mk) /\
+  (rgood msg (rd_header_ref msg r) /\
+   forall r' nref mk, rd_header_ref msg r = (r', Ok (OHeaderRef nref mk)) -> mk_ok r' mk /\ pos (r_cur r') = rdata_pos mk) /\
+  (forall nk, rgood msg (rd_header_n msg nk r) /\
+   forall r' n mk, rd_header_n msg nk r = (r', Ok (OHeaderN n mk)) -> mk_ok r' mk /\ pos (r_cur r') = rdata_pos mk) /\
+  (forall mk, mk_ok r mk -> pos (r_cur r) = rdata_pos mk ->
+     rgood msg (rd_skip_data mk r) /\ rgood msg (rd_data_bytes msg mk r) /\ (forall ty, rgood msg (rd_data msg ty mk r)) /\
+     (m_rtype mk = T_OPT -> rgood msg (rd_opt mk r))) /\
+  (forall s, s < 3 -> rgood msg (rd_seek msg s r)) /\
+  (defined (rd_questions_count r) /\ defined (rd_records_count r) /\ forall s, defined (rd_records_count_in s r)) /\
+  (forall ty mk, defined (rd_bytes_at msg mk r) /\ defined (rd_data_at msg ty mk r) /\ defined (rd_name_ref_at mk r)).
+Proof.
+  intros msg r Hi.
+  split; [intros; apply rd_question_good; assumption|].
+  split; [apply rd_skip_questions_good; assumption|].
+  split; [exact (rd_marker_good msg r Hi)|].
+  split; [exact (rd_header_ref_good msg r Hi)|].
+  split; [intro nk; exact (rd_header_n_good msg nk r Hi)|].
+  split; [intros mk Hm Hp; split; [apply (rd_skip_data_good msg); assumption|split; [apply (rd_data_bytes_good msg); assumption|
+          split; [intro ty; apply (rd_data_good msg); assumption|intro Ht; apply (rd_opt_good msg); assumption]]]|].
+  split; [intros s Hs; apply (rd_seek_good msg); assumption|].
+  split; [apply (counts_good msg); assumption|].
+  intros ty mk. exact (random_access_good msg ty mk r Hi).
+Qed.
